@@ -714,6 +714,9 @@ def scale_families():
         "keep;*n": many(b"keep;\n"),
         "nested-if": lambda n: b"if true {\n" * n + b"keep;\n" + b"}\n" * n,
         "not-chain": lambda n: b"if " + b"not " * n + b"true { keep; }",
+        "not-chain-testlist": lambda n: b"if " + b"not " * n + b"anyof (true, false) { keep; }",
+        "not-chain-in-testlist": lambda n: b"if allof (" + b"not " * n + b"true, false) { keep; }",
+        "testlist-chain": lambda n: b"if " + b"anyof (not " * n + b"true" + b")" * n + b" {}",
         "anyof-nest": lambda n: b"if " + b"anyof (" * n + b"true" + b")" * n + b" {}",
         "long-string": lambda n: b'redirect "' + b"a" * n + b'";',
         "long-list": lambda n: b'if exists [' + b",".join([b'"h"'] * n) + b'] {}',
